@@ -3,7 +3,7 @@ import DarkluaModel.Shared.VisitorSound.Heap.HSound
 # Compatibility lemmas: lists, table entries, interpolation segments, targets
 -/
 namespace DarkluaModel.Sem.Heap
-variable {Q : QRel} {cx : Cx} {D : List String}
+variable {Q : QRel} {cx : Cx} {D : List DName}
 
 theorem SoundEs.nil : SoundEs Q cx D [] [] := by
   intro N call ρ k env env' σ σ' β hc hs he; simp only [evalEs]; exact RRel.okEq hs
@@ -111,7 +111,7 @@ theorem SoundSegs.v {x x' xs xs'} (ihx : SoundE Q cx D x x') (ihxs : SoundSegs Q
 
 /-! ### targets -/
 
-theorem SoundT.var {a} (ha : a ∉ D) : SoundT Q cx D (.var a) (.var a) := by
+theorem SoundT.var {a : String} (ha : DName.ref a ∉ D ∧ DName.wat a ∉ D) : SoundT Q cx D (.var a) (.var a) := by
   intro N call ρ k env env' σ σ' β hc hs he; simp only [evalTarget]; exact RRel.ok ⟨rfl, ha⟩ hs
 
 theorem SoundT.field {x x' n} (ih : SoundE Q cx D x x') : SoundT Q cx D (.field x n) (.field x' n) := by
